@@ -27,6 +27,7 @@ const (
 	ghostFireRef  = "(- 999959)"
 	ghostTimerRef = "(- 999953)"
 	ghostSendRef  = "(- 999949)"
+	ghostLockRef  = "(- 999937)" // slot 0: number of mutexes locked and not yet unlocked by the function under verification
 )
 
 var chanWordRe = regexp.MustCompile(`\b(chsends|lastChan|lastChanValue)\(\)`)
@@ -184,4 +185,41 @@ func (a *Act) selectModel(in *ssa.Select, st *State, reach string) {
 		vs = append(vs, n)
 	}
 	a.setTuple(in, vs)
+}
+
+// Lock balance. Locks are no-ops for the state (A5), but a function that returns while still holding a mutex it took
+// blocks every later user of that mutex: the number of Lock/RLock calls not yet matched by Unlock/RUnlock is a ghost
+// counter; every return of the function under verification must find it where it was at entry, every loop iteration
+// must leave it where it found it.
+func (g *Gen) locksNow(st *State) string { return sel(st.H["G"], ghostLockRef, "0") }
+
+var lockCallRe = regexp.MustCompile(`^\(\*sync\.(RW)?Mutex\)\.(R?Lock|R?Unlock)$`)
+
+// usesLocks: fn (or a function literal in it, or a function of the repository it calls directly) locks or unlocks
+func (eng *Engine) usesLocks(fn *ssa.Function, depth int) bool {
+	for _, b := range fn.Blocks {
+		for _, in := range b.Instrs {
+			var cc *ssa.CallCommon
+			switch x := in.(type) {
+			case *ssa.Call:
+				cc = &x.Call
+			case *ssa.Defer:
+				cc = &x.Call
+			case *ssa.Go:
+				cc = &x.Call
+			}
+			if cc == nil {
+				continue
+			}
+			if callee := cc.StaticCallee(); callee != nil {
+				if lockCallRe.MatchString(shortFn(callee)) {
+					return true
+				}
+				if depth > 0 && eng.inRepo(callee) && eng.usesLocks(callee, depth-1) {
+					return true
+				}
+			}
+		}
+	}
+	return false
 }
